@@ -6,287 +6,557 @@ from typing import Dict, List, Optional, Set, Tuple
 
 from .. import cfg as C
 from .. import lib as L
-from ..core import AnalysisError, FuncInfo, Repo, unparse
+from ..core import AnalysisError, Repo, unparse
 from ..prov import callee_name
 from ..report import Finding, RuleResult
+from . import _c15_util as U
 
 PC = "PlanConverter"
 
 EXPLANATION = (
-    "Thin claim: conservation, per-agent order and final-state equality over all plans are not decided. Decided: C15.guard -- every "
-    "store into a joint-action slot after the first one of a step sits under the while-test _validate_well_defined_joint_action; that "
-    "function returns anything but False only through the interference test, never when the agent's slot is occupied and never when "
-    "the candidate is inapplicable in the step's pre-state parameter (finite valuation); the interference function returns the "
-    "negation of a disjunction that contains the six required intersections (add/delete both ways, precondition/delete, numeric "
-    "write/write, numeric read/write both ways), each identified by the provenance of its operands. C15.once -- every outer "
-    "iteration appends exactly one JointActionCall built from the slot list; every popped action is stored into the slot of its "
-    "agent (agent_names.index); the slot list starts as nop for every agent in the given order. C15.thread -- the step pre-state is "
-    "the initial state or apply_actions(domain, previous, non-nop members). C15.extract -- actions are read in match order, "
-    "lower-cased, name first."
+    "Thin claim: conservation, per-agent order and final-state equality over all plans are not decided. All rules are anchored on the "
+    "public PlanConverter.convert_plan: its two private steps (plan text + agent names -> action sequence; problem + sequence + agent "
+    "names -> joint actions) are found by the provenance of the arguments they receive, analysed with every private helper inlined "
+    "(also the well-definedness test in the `while` condition), and identified by def-use provenance, never by names of helpers or "
+    "locals. Decided: C15.guard -- the slot list of a step is the list handed to JointActionCall; every store into it that can follow "
+    "another store of the same step is unreachable (finite valuation of the guards, propagated through helper results and boolean "
+    "locals) in each of the scenarios: the slot tested for the candidate is occupied, the candidate is inapplicable, one of the six "
+    "required set pairs (add/delete both ways, precondition/delete, numeric write/write, numeric read/write both ways) has a common "
+    "element. The set tests are recognised in any spelling (len(a.intersection(b)) > 0, a & b, not a.isdisjoint(b), all(.. for .. in "
+    "table of pairs), intermediate variables); the role of an operand is the provenance of its elements: which operator fields the "
+    "extracting helper reads (discrete effects split by is_positive, numeric effect / precondition targets, discrete preconditions) "
+    "and whether the operator was built from the head of the remaining plan or from a member of the slot list. The applicability "
+    "test is asked of the candidate's operator on the step's pre-state. C15.once -- every outer iteration appends exactly one "
+    "JointActionCall built from the slot list to the returned list; every popped head is stored into the slot agent_names.index(<agent of "
+    "a plan entry>); the slot list starts as nop for every agent in the given order. C15.thread -- the step pre-state is the initial "
+    "state of the problem, advanced by apply_actions(domain, pre-state, non-nop members of the slot list). C15.agent / C15.extract -- "
+    "actions are read in match order, lower-cased, name first, parameters the rest; the executing agent is the first parameter of the "
+    "action that is an agent name."
 )
 UNDECIDED = "that every action is kept exactly once, per-agent order, and equality of the final states, for all plans"
 
 
+# --------------------------------------------------------------------------------------------------------------- shared context
+class _Ctx:
+    def __init__(self, repo: Repo):
+        self.repo = repo
+        self.c, self.E, self.K = U.discover(repo)
+        self.ex = U.Extractors(repo, self.K.raw)
+        self.kf = U.flatten_full(repo, self.K.raw, self.ex.qns)
+        self.p = L.prov(repo, self.kf)
+        self.g = C.cfg_of(self.kf.node)
+        self.plan = self.K.param("PLAN")
+        self.agents = self.K.param("AGENTS")
+        self.problem = self.K.param("PROBLEM")
+        self.nop = U.module_const(repo, "models.action_call", "NOP_ACTION")
+        # the slot list(s): what joint actions are built from
+        self.slot_nodes: List[ast.AST] = []
+        for c in L.calls_in(self.kf.node):
+            if callee_name(c) == "JointActionCall" and isinstance(c.func, ast.Name):
+                a = L.arg_of(c, repo.find_method("JointActionCall", "__init__"), "actions", 0)
+                if a is None:
+                    continue
+                for o in U.origins(self.p, a):
+                    if not isinstance(o, ast.arg) and all(o is not x for x in self.slot_nodes):
+                        self.slot_nodes.append(o)
+        if not self.slot_nodes:
+            raise AnalysisError(f"{self.K.raw.qn}: no JointActionCall is built from a local slot list")
+        self.slot_ids = {id(o) for o in self.slot_nodes}
+        self.V = U.Verdict(repo, self.kf, self.plan, self.slot_ids, self.ex, self.nop)
+        self.stores = [n for n in ast.walk(self.kf.node) if isinstance(n, ast.Assign) and len(n.targets) == 1 and isinstance(n.targets[0], ast.Subscript)
+                       and U.same_object(self.p, n.targets[0].value, self.slot_ids)]
+        self.stores.sort(key=lambda n: (n.lineno, n.col_offset))
+        # private helpers the inliner had to leave as calls (decorated, ambiguous, starred arguments ...): their effect on the
+        # guards is unknown, so a guard that seems to be missing cannot be told from one that hides in such a helper
+        self.opaque = sorted({callee_name(c) for c in L.calls_in(self.kf.node) if U.is_private(callee_name(c))
+                              and (lambda t: t is not None and t.qn not in self.ex.qns and t.qn != self.K.raw.qn)(U.unique_target(repo, self.kf, c))})
+        # extraction step
+        self.ef = U.flatten_full(repo, self.E.raw)
+        self.pe = L.prov(repo, self.ef)
+        self.ge = C.cfg_of(self.ef.node)
+
+    def site(self, node: Optional[ast.AST], what: str) -> str:
+        return L.site(self.c, node, what)
+
+    def is_nop(self, e: ast.AST) -> bool:
+        return self.V.is_nop(e)
+
+    def only(self, e: ast.AST, path: tuple, p=None) -> bool:
+        try:
+            tr = (p or self.p).trace(e)
+        except KeyError:
+            return False
+        return bool(tr) and all(x == path for x in tr)
+
+
+_ctx_cache: Dict[int, _Ctx] = {}
+
+
+def _ctx(repo: Repo) -> _Ctx:
+    if id(repo) not in _ctx_cache:
+        _ctx_cache[id(repo)] = _Ctx(repo)
+    return _ctx_cache[id(repo)]
+
+
+def _is_prestate(paths) -> bool:
+    """every way the value is produced goes through create_initial_state / apply_actions"""
+    paths = U.short(paths)
+    return bool(paths) and all(any(s.endswith((":create_initial_state", ":apply_actions")) for s in x) for x in paths)
+
+
+def _is_advanced(paths) -> bool:
+    """the state is the initial state on the first step and the result of apply_actions afterwards"""
+    paths = U.short(paths)
+    return any(any(s.endswith(":apply_actions") for s in x) for x in paths) and \
+        any(any(s.endswith(":create_initial_state") for s in x) and not any(s.endswith(":apply_actions") for s in x) for x in paths)
+
+
+def _enclosing_loops(g: C.CFG, n: int) -> List[int]:
+    out = []
+    cur = g.loop_of.get(n)
+    while cur is not None and cur not in out:
+        out.append(cur)
+        cur = g.loop_of.get(cur)
+    return out
+
+
+# --------------------------------------------------------------------------------------------------------------- C15.guard
 def rule_guard(repo: Repo) -> RuleResult:
     r = RuleResult("C15.guard", "an action joins a step only after the well-definedness test: slot free, applicable in the step's pre-state, no interference",
                    "groups only actions that are applicable in the step's pre-state and do not interfere")
-    f = repo.func(f"{PC}._create_joint_actions")
-    p = L.prov(repo, f)
-    g = C.cfg_of(f.node)
-    stores = [n for n in ast.walk(f.node) if isinstance(n, ast.Assign) and len(n.targets) == 1 and isinstance(n.targets[0], ast.Subscript)
-              and isinstance(n.targets[0].value, ast.Name) and n.targets[0].value.id == "joint_action"]
-    if len(stores) < 2:
-        raise AnalysisError("_create_joint_actions: slot stores not recognised")
-    whiles = [n for n in ast.walk(f.node) if isinstance(n, ast.While) and isinstance(n.test, ast.Call) and callee_name(n.test) == "_validate_well_defined_joint_action"]
-    outer = [n for n in ast.walk(f.node) if isinstance(n, ast.While) and n not in whiles]
-    first_seen = False
-    for s in stores:
-        r.site(L.site(f, s, "slot store"))
-        guarded = any(any(s is x for x in C.stmts_in(w.body)) for w in whiles)
-        if guarded:
-            r.ok({"store": unparse(s, 70), "guarded_by": "_validate_well_defined_joint_action"})
-        elif not first_seen:
-            first_seen = True
+    x = _ctx(repo)
+    g, p, V = x.g, x.p, x.V
+    if not x.stores:
+        raise AnalysisError(f"{x.K.raw.qn}: no store into the slot list of a step found")
+    creation = {g.node_containing(o) for o in x.slot_nodes} - {None}
+    node = {id(s): g.node_of(s) for s in x.stores}
+    later: Set[int] = set()
+    for s in x.stores:
+        after: Set[int] = set()
+        for m, _l in g.succ[node[id(s)]]:
+            after |= C.reachable_from(g, m, avoid=creation)
+        later |= {n for n in node.values() if n in after}
+    if not later:
+        raise AnalysisError(f"{x.K.raw.qn}: no store into a slot that follows another store of the same step (packing loop not recognised)")
+    scenarios: List[Tuple[str, Dict[str, bool]]] = [("slot-occupied", {"occupied": True}), ("inapplicable", {"applicable": False})]
+    for a, b in U.REQUIRED_PAIRS:
+        scenarios.append((f"interference:{a}&{b}", {"pair:" + U.pair_name(a, b): True, "nonempty:" + a: True, "nonempty:" + b: True}))
+    reach = {name: V.reach(sc) for name, sc in scenarios}
+    good = V.reach({"occupied": False, "applicable": True, "pair:*": False})
+    if x.opaque and any(n in reach[name] for n in later for name, _sc in scenarios):
+        raise AnalysisError(f"{x.K.raw.qn}: the private helper(s) {x.opaque} could not be inlined; the guards of the packing loop cannot be interpreted")
+    for s in x.stores:
+        r.site(x.site(s, "slot store"))
+        n = node[id(s)]
+        if n not in later:
             r.ok({"store": unparse(s, 70), "role": "first action of the step"})
+            continue
+        bad = [name for name, _sc in scenarios if n in reach[name]]
+        if not bad:
+            r.ok({"store": unparse(s, 70), "unreachable_when": [name for name, _ in scenarios], "reachable_when_all_tests_pass": n in good})
+        elif len(bad) == len(scenarios):
+            r.fail(Finding("C15.guard", x.c, "unguarded-slot-store", f"{unparse(s, 70)} adds an action to the step without the well-definedness test", node=s))
         else:
-            r.fail(Finding("C15.guard", f, "unguarded-slot-store", f"{unparse(s, 70)} adds an action to the step without the well-definedness test", node=s))
-    # the guard receives the step's pre-state and the candidate that is then popped
-    for w in whiles:
-        r.site(L.site(f, w.test, "guard arguments"))
-        v = repo.func(f"{PC}._validate_well_defined_joint_action")
-        a_state, a_joint, a_next = (L.arg_of(w.test, v, k) for k in ("current_state", "combined_actions", "next_action"))
-        ok = a_state is not None and a_joint is not None and a_next is not None
-        if ok:
-            ts = p.trace(a_state)
-            ok = all(any(s.endswith("create_initial_state") or s.endswith("apply_actions") for s in x) for x in ts) and bool(ts)
-            ok = ok and isinstance(a_joint, ast.Name) and a_joint.id == "joint_action"
-            ok = ok and any(x[0] == "param:plan_actions" and "item:0" in x for x in p.trace(a_next))
-        if ok:
-            r.ok({"guard": "(_step pre-state_, joint_action, plan_actions[0])"})
+            for b in bad:
+                r.fail(Finding("C15.guard", x.c, f"slot-store-despite:{b}",
+                               f"{unparse(s, 70)} can add a further action to the step although: {b} "
+                               f"(tests recognised: {sorted(V.pairs_seen)}; e.g. two actions writing the same fluent end up in one step)", node=s),
+                       {"pairs_found": sorted(V.pairs_seen)})
+    # the applicability test: candidate's operator, step pre-state
+    isapp = repo.find_method("Operator", "is_applicable")
+    for c in L.calls_in(x.kf.node):
+        if V.atom(c) != ("applicable", True):
+            continue
+        r.site(x.site(c, "applicability test"))
+        st = L.arg_of(c, isapp, "state", 0)
+        why = []
+        if st is None or not _is_prestate(p.trace(st)):
+            why.append("it is not evaluated on the step's pre-state")
+        tr = U.short(p.trace(c.func.value))
+        who = {V.who_of(t) for t in tr if t[-1].endswith(":Operator")} - {None}
+        if not any(t[0] == "fresh:Operator" for t in tr) or who != {"next"}:
+            why.append("it is not asked of the operator of the head of the remaining plan")
+        if why:
+            r.fail(Finding("C15.guard", x.c, "applicability-operands", f"{unparse(c, 60)}: {'; '.join(why)}", node=c))
         else:
-            r.fail(Finding("C15.guard", f, "guard-arguments", "the guard is not evaluated on (step pre-state, current slots, head of the remaining plan)", node=w.test))
-    # the validator
-    v = repo.func(f"{PC}._validate_well_defined_joint_action")
-    pv = L.prov(repo, v)
-    gv = C.cfg_of(v.node)
-
-    def matcher(e):
-        if isinstance(e, ast.Compare) and len(e.ops) == 1 and isinstance(e.comparators[0], ast.Name) and e.comparators[0].id == "NOP_ACTION" and "combined_actions" in ast.unparse(e.left):
-            return "occupied" if isinstance(e.ops[0], ast.NotEq) else "!occupied"
-        if isinstance(e, ast.Call) and callee_name(e) == "is_applicable":
-            return "applicable"
-        return None
-
-    G = L.Guards(v, matcher)
-    r.site(v.qn + " [validator]")
-    if not {"occupied", "applicable"} <= G.atoms_seen:
-        r.fail(Finding("C15.guard", v, "validator-tests", f"the validator lacks the slot / applicability tests (found {sorted(G.atoms_seen)})"))
-    else:
-        def nonfalse(seen):
-            return [gv.stmt[n] for n in seen if gv.kind[n] == "return" and not (isinstance(gv.stmt[n].value, ast.Constant) and gv.stmt[n].value.value is False)]
-        bad = []
-        if nonfalse(G.reach({"occupied": True})):
-            bad.append("slot occupied")
-        if nonfalse(G.reach({"occupied": False, "applicable": False})):
-            bad.append("inapplicable in the pre-state")
-        final = nonfalse(G.reach({"occupied": False, "applicable": True}))
-        if not final or not all(isinstance(x.value, ast.Call) and callee_name(x.value) == "_validate_well_defined_action_insertion" for x in final):
-            bad.append("result is not the interference test")
-        app = [c for c in L.calls_in(v.node) if callee_name(c) == "is_applicable"]
-        if not app or not all(x == ("param:current_state",) for x in pv.trace(app[0].args[0])):
-            bad.append("applicability not tested on the step's pre-state")
-        else:
-            rc = pv.trace(app[0].func.value)
-            if not any(x[0] == "fresh:Operator" for x in rc):
-                bad.append("applicability not asked of the candidate's operator")
-        if bad:
-            r.fail(Finding("C15.guard", v, "validator-logic", f"the validator can accept although: {bad}"))
-        else:
-            r.ok({"validator": "False if slot occupied / inapplicable; otherwise the interference test"})
-    # interference pairs
-    h = repo.func(f"{PC}._validate_well_defined_action_insertion")
-    ph = L.prov(repo, h)
-    r.site(h.qn + " [interference]")
-    rets = L.func_returns(h)
-    mains = [x for x in rets if isinstance(x.value, ast.UnaryOp) and isinstance(x.value.op, ast.Not) and isinstance(x.value.operand, ast.BoolOp)
-             and isinstance(x.value.operand.op, ast.Or)]
-    if len(mains) != 1:
-        raise AnalysisError("_validate_well_defined_action_insertion: one `return not (a or b ...)` expected")
-    e = mains[0].value
-    shortcuts = [x for x in rets if x is not mains[0] and not (isinstance(x.value, ast.Constant) and x.value.value is False)]
-    if shortcuts:
-        r.fail(Finding("C15.guard", h, "interference-bypassed", f"`{unparse(shortcuts[0], 60)}` accepts an insertion without running the interference test "
-                       f"(e.g. two actions writing the same fluent end up in one step)", node=shortcuts[0]))
-
-    def role(expr) -> str:
-        tr = ph.trace(expr)
-        who = "next" if any(x[0] == "param:next_action" for x in tr) and not any("elem" in x and x[0] == "param:combined_actions" for x in tr) else "acc"
-        kinds = set()
-        for x in tr:
-            for i, s in enumerate(x):
-                if s.endswith(":_extract_grounded_effects") or s == "call:_extract_grounded_effects":
-                    for s2 in x[i + 1:]:
-                        if s2.startswith("unpack:"):
-                            kinds.add({"0": "add", "1": "del", "2": "num"}[s2[7:]])
-                            break
-                if s.endswith(":_extract_grounded_preconditions") or s == "call:_extract_grounded_preconditions":
-                    for s2 in x[i + 1:]:
-                        if s2.startswith("unpack:"):
-                            kinds.add({"0": "pre", "1": "numpre"}[s2[7:]])
-                            break
-        return who + "." + "/".join(sorted(kinds))
-
-    pairs = set()
-    for d in e.operand.values:
-        inter = [c for c in L.calls_in(d) if callee_name(c) == "intersection" and isinstance(c.func, ast.Attribute) and c.args]
-        gt0 = isinstance(d, ast.Compare) and isinstance(d.ops[0], ast.Gt) and isinstance(d.comparators[0], ast.Constant) and d.comparators[0].value == 0
-        if inter and gt0:
-            pairs.add(frozenset([role(inter[0].func.value), role(inter[0].args[0])]))
-    need = [("acc.add", "next.del"), ("acc.del", "next.add"), ("acc.pre", "next.del"), ("acc.num", "next.num"), ("acc.numpre", "next.num"), ("acc.num", "next.numpre")]
-    missing = [pr for pr in need if frozenset(pr) not in pairs]
-    if missing:
-        r.fail(Finding("C15.guard", h, f"interference-missing:{';'.join('&'.join(m) for m in missing)}", f"the interference test does not intersect {missing}"),
-               {"pairs_found": sorted(sorted(x) for x in pairs)})
-    else:
-        r.ok({"pairs_found": sorted(sorted(x) for x in pairs)})
-    r.require_sites(5)
+            r.ok({"applicability": "Operator(<head of the remaining plan>).is_applicable(<step pre-state>)"})
+    r.site(x.c.qn + " [interference pairs]")
+    if all(U.pair_name(a, b) in V.pairs_seen for a, b in U.REQUIRED_PAIRS):
+        r.ok({"pairs_found": sorted(V.pairs_seen)})
+    r.require_sites(3)
     return r
+
+
+# --------------------------------------------------------------------------------------------------------------- C15.once
+def _nop_call(x: _Ctx, e: ast.AST) -> bool:
+    if not (isinstance(e, ast.Call) and callee_name(e) == "ActionCall" and isinstance(e.func, ast.Name)):
+        return False
+    nm = L.arg_of(e, x.repo.find_method("ActionCall", "__init__"), "name", 0)
+    return nm is not None and x.is_nop(nm)
+
+
+def _per_agent(x: _Ctx, it: ast.AST, len_only: bool = False) -> bool:
+    """`agent_names` / `range(len(agent_names))` (len_only: `len(agent_names)`)"""
+    try:
+        tr = x.p.trace(it)
+    except KeyError:
+        return False
+    allowed = [(f"param:{x.agents}", "arg0:len")] if len_only else [(f"param:{x.agents}",), (f"param:{x.agents}", "arg0:len", "arg0:range")]
+    return bool(tr) and all(t in allowed for t in tr)
+
+
+def _nop_per_agent(x: _Ctx, o: ast.AST) -> bool:
+    if (isinstance(o, ast.List) and not o.elts) or (isinstance(o, ast.Call) and isinstance(o.func, ast.Name) and o.func.id == "list" and not o.args and not o.keywords):
+        # slots = []; for _ in agent_names: slots.append(ActionCall(nop, []))
+        me = {id(o)}
+        muts = [c for c in L.calls_in(x.kf.node) if isinstance(c.func, ast.Attribute) and c.func.attr in ("append", "extend", "insert", "pop", "remove", "clear", "sort", "reverse")
+                and U.same_object(x.p, c.func.value, me)]
+        if len(muts) != 1 or muts[0].func.attr != "append" or len(muts[0].args) != 1:
+            return False
+        vals = U.origins(x.p, muts[0].args[0])
+        if not (len(vals) == 1 and _nop_call(x, vals[0])):
+            return False
+        n = x.g.node_containing(muts[0])
+        loops = _enclosing_loops(x.g, n)
+        mine = [h for h in loops if h not in _enclosing_loops(x.g, x.g.node_containing(o))]
+        if len(mine) != 1 or not isinstance(x.g.stmt[mine[0]], ast.For) or not _per_agent(x, x.g.stmt[mine[0]].iter):
+            return False
+        at_least, at_most = U.per_iteration(x.g, mine[0], {n})
+        return at_least and at_most
+    if isinstance(o, ast.Call) and isinstance(o.func, ast.Name) and o.func.id == "list" and len(o.args) == 1:
+        o = o.args[0]
+    if isinstance(o, (ast.ListComp, ast.GeneratorExp)):
+        elts = U.origins(x.p, o.elt)
+        return len(o.generators) == 1 and not o.generators[0].ifs and not o.generators[0].is_async and _per_agent(x, o.generators[0].iter) \
+            and len(elts) == 1 and _nop_call(x, elts[0])
+    if isinstance(o, ast.BinOp) and isinstance(o.op, ast.Mult):
+        for lst, cnt in ((o.left, o.right), (o.right, o.left)):
+            if isinstance(lst, ast.List) and len(lst.elts) == 1 and _nop_call(x, lst.elts[0]) and _per_agent(x, cnt, len_only=True):
+                return True
+    return False
 
 
 def rule_once(repo: Repo) -> RuleResult:
     r = RuleResult("C15.once", "one JointActionCall per step built from the slot list; every popped action lands in its agent's slot; slots start as nop per agent",
                    "every action exactly once, one slot per agent in the given agent order")
-    f = repo.func(f"{PC}._create_joint_actions")
-    p = L.prov(repo, f)
-    g = C.cfg_of(f.node)
-    outer = [n for n in ast.walk(f.node) if isinstance(n, ast.While) and not (isinstance(n.test, ast.Call) and callee_name(n.test) == "_validate_well_defined_joint_action")]
-    if len(outer) != 1:
-        raise AnalysisError("_create_joint_actions: outer loop not recognised")
-    loop = outer[0]
-    head = g.node_of(loop)
-    apps = [c for c in L.calls_in(loop) if isinstance(c.func, ast.Attribute) and c.func.attr == "append" and c.args and isinstance(c.args[0], ast.Call)
-            and callee_name(c.args[0]) == "JointActionCall"]
-    r.site(L.site(f, loop, "one joint action per step"))
+    x = _ctx(repo)
+    g, p = x.g, x.p
+    rets = [n for n in ast.walk(x.kf.node) if isinstance(n, ast.Return) and n.value is not None]
+    result_ids = {id(o) for ret in rets for o in U.origins(p, ret.value)}
+    heads = {(_enclosing_loops(g, g.node_containing(o)) or [None])[0] for o in x.slot_nodes}
+    if len(heads) != 1 or None in heads:
+        raise AnalysisError(f"{x.K.raw.qn}: the loop that builds one slot list per step was not recognised")
+    head = next(iter(heads))
+    r.site(x.site(g.stmt[head], "one joint action per step"))
+    apps = [c for c in L.calls_in(x.kf.node) if isinstance(c.func, ast.Attribute) and c.func.attr == "append" and len(c.args) == 1
+            and U.same_object(p, c.func.value, result_ids)]
+
+    def from_slots(e: ast.AST) -> bool:
+        os_ = U.origins(p, e)
+        if len(os_) != 1 or not (isinstance(os_[0], ast.Call) and callee_name(os_[0]) == "JointActionCall"):
+            return False
+        a = L.arg_of(os_[0], repo.find_method("JointActionCall", "__init__"), "actions", 0)
+        return a is not None and U.same_object(p, a, x.slot_ids)
+
     app_nodes = {g.node_containing(a) for a in apps}
-    paths = C.acyclic_paths(g, head, lambda n: False)
-    counts = {sum(1 for n, _ in pt[1:] if n in app_nodes) for pt in paths if len(pt) > 1 and pt[0][1] == "iter"}
-    built_from_slots = all(isinstance(a.args[0].args[0], ast.Name) and a.args[0].args[0].id == "joint_action" for a in apps if a.args[0].args)
-    rets = {x.value.id for x in L.func_returns(f) if isinstance(x.value, ast.Name)}
-    tg = {a.func.value.id for a in apps if isinstance(a.func.value, ast.Name)}
-    if counts == {1} and built_from_slots and rets == tg and len(tg) == 1:
-        r.ok({"appends_per_step": sorted(counts), "built_from": "joint_action"})
+    in_loop = all(head in _enclosing_loops(g, n) for n in app_nodes)
+    at_least, at_most = U.per_iteration(g, head, app_nodes)
+    built = bool(apps) and all(from_slots(a.args[0]) for a in apps)
+    if at_least and at_most and built and in_loop:
+        r.ok({"appends_per_step": 1, "built_from": "the slot list of the step"})
     else:
-        r.fail(Finding("C15.once", f, "one-joint-action-per-step", f"JointActionCall appends per step: {sorted(counts)}; built from slots: {built_from_slots}"))
+        r.fail(Finding("C15.once", x.c, "one-joint-action-per-step", f"JointActionCall appends to the result per step: at least one: {at_least}, at most one: {at_most}; "
+                       f"built from the slot list: {built}; inside the step loop: {in_loop}", node=g.stmt[head]))
     # slots initialised to nop for every agent
-    r.site(f.qn + " [slot initialisation]")
-    ok = False
-    for n in ast.walk(loop):
-        if isinstance(n, ast.Assign) and any(isinstance(t, ast.Name) and t.id == "joint_action" for t in n.targets) and isinstance(n.value, ast.ListComp):
-            lc = n.value
-            it = p.trace(lc.generators[0].iter)
-            elt = lc.elt
-            ok = all(x == ("param:agent_names",) for x in it) and isinstance(elt, ast.Call) and callee_name(elt) == "ActionCall" and elt.args and \
-                isinstance(elt.args[0], ast.Name) and elt.args[0].id == "NOP_ACTION" and not lc.generators[0].ifs
-    if ok:
-        r.ok({"slots": "[ActionCall(NOP_ACTION, []) for _ in agent_names]"})
+    r.site(x.c.qn + " [slot initialisation]")
+    if all(_nop_per_agent(x, o) for o in x.slot_nodes):
+        r.ok({"slots": "one ActionCall(nop) per agent name, in the given order"})
     else:
-        r.fail(Finding("C15.once", f, "slot-init", "the slot list of a step is not initialised to nop for every agent in the given order"))
+        r.fail(Finding("C15.once", x.c, "slot-init", "the slot list of a step is not initialised to nop for every agent in the given order", node=x.slot_nodes[0]))
     # every pop lands in the slot of the agent that executes it
-    pops = [c for c in L.calls_in(f.node) if isinstance(c.func, ast.Attribute) and c.func.attr == "pop" and isinstance(c.func.value, ast.Name) and c.func.value.id == "plan_actions"]
-    stores = [n for n in ast.walk(f.node) if isinstance(n, ast.Assign) and len(n.targets) == 1 and isinstance(n.targets[0], ast.Subscript)
-              and isinstance(n.targets[0].value, ast.Name) and n.targets[0].value.id == "joint_action"]
-    r.site(f.qn + " [popped actions stored]")
-    ok = len(pops) == len(stores) and all(isinstance(c.args[0], ast.Constant) and c.args[0].value == 0 for c in pops if c.args) and bool(pops)
-    for s in stores:
-        idx = s.targets[0].slice
-        ok = ok and isinstance(idx, ast.Call) and callee_name(idx) == "index" and all(x == ("param:agent_names",) for x in p.trace(idx.func.value))
-        ok = ok and any(x[0] == "param:plan_actions" and "call:pop" in x for x in p.trace(s.value))
-        # the agent used for the slot belongs to the popped action
-        agent = idx.args[0] if isinstance(idx, ast.Call) and idx.args else None
-        if agent is not None:
-            at = p.trace(agent)
-            ok = ok and any(x[0] == "param:plan_actions" and (x[-1] in ("unpack:1", "item:1")) for x in at)
+    r.site(x.c.qn + " [popped actions stored]")
+    pops = [c for c in L.calls_in(x.kf.node) if isinstance(c.func, ast.Attribute) and c.func.attr == "pop" and x.only(c.func.value, (f"param:{x.plan}",))]
+    ok = bool(pops) and all(len(c.args) == 1 and isinstance(c.args[0], ast.Constant) and c.args[0].value == 0 and not c.keywords for c in pops)
+    stored_values = [n for s in x.stores for n in U.flows_from(p, s.value)]
+    for c in pops:
+        ok = ok and any(n is c for n in stored_values)
+    ok = ok and bool(x.stores)
+    for s in x.stores:
+        idxs = U.origins(p, s.targets[0].slice)
+        idx = idxs[0] if len(idxs) == 1 else None
+        good_idx = isinstance(idx, ast.Call) and isinstance(idx.func, ast.Attribute) and idx.func.attr == "index" and len(idx.args) == 1 \
+            and x.only(idx.func.value, (f"param:{x.agents}",))
+        if good_idx:
+            at = U.short(p.trace(idx.args[0]))
+            good_idx = any(t[0] == f"param:{x.plan}" and t[-1] in ("unpack:1", "item:1") for t in at)
+        vt = U.short(p.trace(s.value))
+        good_val = any(t[0] == f"param:{x.plan}" and "call:pop" in t and t[-1] in ("unpack:0", "item:0") for t in vt)
+        ok = ok and good_idx and good_val
     if ok:
-        r.ok({"pops": len(pops), "stores": len(stores), "slot": "agent_names.index(<agent of the popped action>)"})
+        r.ok({"pops": len(pops), "stores": len(x.stores), "slot": "agent_names.index(<agent of the plan entry>)"})
     else:
-        r.fail(Finding("C15.once", f, "pop-store", "a popped action is not stored into the slot of its executing agent (or is dropped)"))
+        r.fail(Finding("C15.once", x.c, "pop-store", "a popped action is not stored into the slot of its executing agent (or is dropped)"))
     r.require_sites(3)
     return r
+
+
+# --------------------------------------------------------------------------------------------------------------- C15.thread
+def _non_nop_members(x: _Ctx, j: Optional[ast.AST]) -> bool:
+    """the slot list, or its members filtered by `member.name != nop`"""
+    if j is None:
+        return False
+    p = x.p
+    if U.same_object(p, j, x.slot_ids):
+        return True
+    os_ = U.origins(p, j)
+    if len(os_) != 1:
+        return False
+    o = os_[0]
+    if isinstance(o, ast.Call) and isinstance(o.func, ast.Name) and o.func.id == "list" and len(o.args) == 1:
+        o = o.args[0]
+    if isinstance(o, (ast.ListComp, ast.GeneratorExp)) and len(o.generators) == 1:
+        gen = o.generators[0]
+        if not (isinstance(gen.target, ast.Name) and isinstance(o.elt, ast.Name) and o.elt.id == gen.target.id and U.same_object(p, gen.iter, x.slot_ids)):
+            return False
+        if not gen.ifs:
+            return True
+        if len(gen.ifs) != 1:
+            return False
+        c, neg = gen.ifs[0], False
+        while isinstance(c, ast.UnaryOp) and isinstance(c.op, ast.Not):
+            c, neg = c.operand, not neg
+        if isinstance(c, ast.Compare) and len(c.ops) == 1 and isinstance(c.ops[0], (ast.Eq, ast.Is) if neg else (ast.NotEq, ast.IsNot)):
+            for a, b in ((c.left, c.comparators[0]), (c.comparators[0], c.left)):
+                if isinstance(a, ast.Attribute) and a.attr == "name" and isinstance(a.value, ast.Name) and a.value.id == gen.target.id and x.is_nop(b):
+                    return True
+        return False
+    if (isinstance(o, ast.List) and not o.elts) or (isinstance(o, ast.Call) and isinstance(o.func, ast.Name) and o.func.id == "list" and not o.args):
+        # executed = []; for m in slots: if m.name != nop: executed.append(m)
+        adds = [c for c in L.calls_in(x.kf.node) if isinstance(c.func, ast.Attribute) and c.func.attr in ("append", "add", "extend", "insert", "update")
+                and U.same_object(p, c.func.value, {id(o)})]
+        others = [n for n in ast.walk(x.kf.node) if isinstance(n, (ast.Assign, ast.AugAssign)) and any(
+            isinstance(t, ast.Subscript) and U.same_object(p, t.value, {id(o)}) for t in (n.targets if isinstance(n, ast.Assign) else [n.target]))]
+        if len(adds) != 1 or others or adds[0].func.attr != "append" or len(adds[0].args) != 1:
+            return False
+        src = U.origins(p, adds[0].args[0])
+        if not (len(src) == 1 and isinstance(src[0], ast.For) and isinstance(src[0].target, ast.Name) and U.same_object(p, src[0].iter, x.slot_ids)):
+            return False
+
+        def nop_test(e):
+            if isinstance(e, ast.Compare) and len(e.ops) == 1 and isinstance(e.ops[0], (ast.Eq, ast.NotEq, ast.Is, ast.IsNot)):
+                for a, b in ((e.left, e.comparators[0]), (e.comparators[0], e.left)):
+                    if isinstance(a, ast.Attribute) and a.attr == "name" and x.is_nop(b):
+                        oa = U.origins(p, a.value)
+                        if len(oa) == 1 and oa[0] is src[0]:
+                            return "nop" if isinstance(e.ops[0], (ast.Eq, ast.Is)) else "!nop"
+            return None
+
+        G = L.Guards(x.kf, nop_test)
+        n = x.g.node_containing(adds[0])
+        if "nop" not in G.atoms_seen:
+            return n in G.reach({})
+        return n in G.reach({"nop": False}) and n not in G.reach({"nop": True})
+    if isinstance(o, ast.Attribute) and o.attr == "operational_actions":
+        # JointActionCall(slots).operational_actions: the library's own non-nop filter
+        inner = U.origins(p, o.value)
+        if len(inner) == 1 and isinstance(inner[0], ast.Call) and callee_name(inner[0]) == "JointActionCall":
+            a = L.arg_of(inner[0], x.repo.find_method("JointActionCall", "__init__"), "actions", 0)
+            return a is not None and U.same_object(p, a, x.slot_ids)
+    return False
 
 
 def rule_thread(repo: Repo) -> RuleResult:
     r = RuleResult("C15.thread", "step pre-state = initial state, then apply_actions(domain, previous pre-state, non-nop members of the step)",
                    "executing the joint plan reaches the same final state")
-    f = repo.func(f"{PC}._create_joint_actions")
-    p = L.prov(repo, f)
-    r.site(f.qn)
-    calls = [c for c in L.calls_in(f.node) if callee_name(c) == "apply_actions"]
-    ok = False
-    if len(calls) == 1:
-        c = calls[0]
-        aa = repo.func("multi_agent.common::apply_actions")
+    x = _ctx(repo)
+    p = x.p
+    r.site(x.c.qn)
+    calls = [c for c in L.calls_in(x.kf.node) if callee_name(c) == "apply_actions"]
+    aa = repo.func_opt("multi_agent.common::apply_actions")
+    why = []
+    if not calls or aa is None:
+        why.append("no call of apply_actions")
+    for c in calls:
         d, s, j = (L.arg_of(c, aa, k) for k in ("domain", "current_state", "joint_action"))
-        ts = p.trace(s)
-        ok = all(x == ("self", "attr:ma_domain") for x in p.trace(d)) and \
-            all(any(st.endswith("create_initial_state") or st.endswith("apply_actions") for st in x) for x in ts) and bool(ts)
-        if isinstance(j, ast.ListComp):
-            it = j.generators[0]
-            cond = it.ifs[0] if len(it.ifs) == 1 else None
-            ok = ok and isinstance(it.iter, ast.Name) and it.iter.id == "joint_action" and cond is not None and \
-                isinstance(cond, ast.Compare) and isinstance(cond.ops[0], ast.NotEq) and "NOP_ACTION" in ast.unparse(cond)
-        else:
-            ok = ok and isinstance(j, ast.Name) and j.id == "joint_action"
-        # result assigned back to the state variable used by the guard
-        ok = ok and any(isinstance(n, ast.Assign) and n.value is c and isinstance(n.targets[0], ast.Name) and isinstance(s, ast.Name) and n.targets[0].id == s.id
-                        for n in ast.walk(f.node))
-    init = [c for c in L.calls_in(f.node) if callee_name(c) == "create_initial_state"]
-    ok = ok and len(init) == 1 and all(x == ("param:problem",) for x in p.trace(init[0].args[0]))
-    if ok:
-        r.ok({"state": "create_initial_state(problem) -> apply_actions(ma_domain, state, [a for a in joint_action if a.name != nop])"})
+        if d is None or not x.only(d, ("self", "attr:ma_domain")):
+            why.append("apply_actions does not use the converter's domain")
+        ts = p.trace(s) if s is not None else set()
+        if not _is_prestate(ts) or not _is_advanced(ts):
+            why.append("the state handed to apply_actions is not the step pre-state carried over from the previous step")
+        if not _non_nop_members(x, j):
+            why.append("apply_actions does not receive the (non-nop) members of the step's slot list")
+    init = [c for c in L.calls_in(x.kf.node) if callee_name(c) == "create_initial_state"]
+    if not init or not all(c.args and x.only(c.args[0], (f"param:{x.problem}",)) for c in init):
+        why.append("the first pre-state is not create_initial_state(problem)")
+    # the state the candidates are tested on is the threaded one
+    isapp = repo.find_method("Operator", "is_applicable")
+    for c in L.calls_in(x.kf.node):
+        if x.V.atom(c) == ("applicable", True):
+            st = L.arg_of(c, isapp, "state", 0)
+            if st is not None and _is_prestate(p.trace(st)) and not _is_advanced(p.trace(st)):
+                why.append("the state the candidates are tested on is never advanced by the result of apply_actions")
+    if not why:
+        r.ok({"state": "create_initial_state(problem) -> apply_actions(ma_domain, state, non-nop members of the slot list) per step"})
     else:
-        r.fail(Finding("C15.thread", f, "state-threading", "the step pre-state is not threaded through apply_actions on the non-nop members"))
+        r.fail(Finding("C15.thread", x.c, "state-threading", "the step pre-state is not threaded through apply_actions on the non-nop members: " + "; ".join(dict.fromkeys(why))))
     r.require_sites(1)
     return r
+
+
+# --------------------------------------------------------------------------------------------------------------- extraction step
+def _plan_entries(x: _Ctx) -> List[Tuple[ast.Tuple, ast.AST, Optional[ast.AST]]]:
+    """(entry tuple, site, comprehension or None) for every way an entry is put into the returned sequence"""
+    p = x.pe
+    rets = [n for n in ast.walk(x.ef.node) if isinstance(n, ast.Return) and n.value is not None]
+    res = [o for ret in rets for o in U.origins(p, ret.value)]
+    ids = {id(o) for o in res}
+    out = []
+
+    def entry(e: ast.AST):
+        os_ = U.origins(p, e)
+        if len(os_) == 1 and isinstance(os_[0], ast.Tuple) and len(os_[0].elts) == 2:
+            return os_[0]
+        return None
+
+    for o in res:
+        if isinstance(o, ast.Call) and isinstance(o.func, ast.Name) and o.func.id == "list" and len(o.args) == 1:
+            o = o.args[0]
+        if isinstance(o, (ast.ListComp, ast.GeneratorExp)):
+            t = entry(o.elt)
+            if t is None:
+                raise AnalysisError(f"{x.E.raw.qn}: element of the returned sequence is not an (action, agent) pair")
+            out.append((t, o, o))
+    for c in L.calls_in(x.ef.node):
+        if isinstance(c.func, ast.Attribute) and c.func.attr == "append" and len(c.args) == 1 and U.same_object(p, c.func.value, ids):
+            t = entry(c.args[0])
+            if t is None:
+                raise AnalysisError(f"{x.E.raw.qn}: element appended to the returned sequence is not an (action, agent) pair")
+            out.append((t, c, None))
+    if not out:
+        raise AnalysisError(f"{x.E.raw.qn}: construction of the returned action sequence not recognised")
+    return out
+
+
+def _agents_only(x: _Ctx, e: ast.AST) -> bool:
+    """agent_names, possibly wrapped in set()/list()/tuple()/frozenset()"""
+    try:
+        tr = x.pe.trace(e)
+    except KeyError:
+        return False
+    a = f"param:{x.E.param('AGENTS')}"
+    return bool(tr) and all(t[0] == a and all(s in ("arg0:set", "arg0:frozenset", "arg0:list", "arg0:tuple") for s in t[1:]) for t in tr)
+
+
+def _starred_rest(x: _Ctx, e: ast.AST, depth: int = 0) -> Optional[Tuple[ast.AST, int]]:
+    """(right-hand side, position) when e is the name bound by `a, *e = rhs` (plain copies of the name are followed)"""
+    p = x.pe
+    if not (isinstance(e, ast.Name) and isinstance(e.ctx, ast.Load)) or depth > 6:
+        return None
+    try:
+        defs = sorted(p.rd.defs_reaching(p.node_of(e), e.id))
+    except KeyError:
+        return None
+    if len(defs) != 1 or defs[0] == p.g.entry:
+        return None
+    st = p.g.stmt[defs[0]]
+    if isinstance(st, ast.AnnAssign) and st.value is not None and isinstance(st.value, ast.Name):
+        return _starred_rest(x, st.value, depth + 1)
+    if isinstance(st, ast.Assign) and len(st.targets) == 1:
+        t = st.targets[0]
+        if isinstance(t, ast.Name) and isinstance(st.value, ast.Name):
+            return _starred_rest(x, st.value, depth + 1)
+        if isinstance(t, (ast.Tuple, ast.List)):
+            for i, el in enumerate(t.elts):
+                if isinstance(el, ast.Starred) and isinstance(el.value, ast.Name) and el.value.id == e.id and i == len(t.elts) - 1:
+                    return st.value, i
+    return None
+
+
+def _is_parameter_list(x: _Ctx, e: ast.AST) -> bool:
+    """the tokens of the action after its name: tokens[1:] or the starred rest of `name, *rest = tokens`"""
+    text = f"param:{x.E.param('TEXT')}"
+    try:
+        tr = U.short(x.pe.trace(e))
+    except KeyError:
+        return False
+    for t in tr:
+        if t[0] == text and "call:split" in t:
+            k = [i for i, st_ in enumerate(t) if st_.startswith("slice:1:")]
+            if k and k[-1] > t.index("call:split") and all(st_ in ("arg0:list", "arg0:tuple", "arg0:iter") for st_ in t[k[-1] + 1:]):
+                return True
+    sr = _starred_rest(x, e)
+    if sr is not None and sr[1] == 1:
+        return any(t[0] == text and "call:split" in t for t in U.short(x.pe.trace(sr[0])))
+    return False
+
+
+def _over_parameters(x: _Ctx, it: ast.AST) -> Tuple[bool, bool]:
+    """(the iterable is the parameter list of the action [tokens after the name], it is the agent list)"""
+    return _is_parameter_list(x, it), _agents_only(x, it)
+
+
+def _first_match(x: _Ctx, agent: ast.AST) -> Tuple[bool, str]:
+    p = x.pe
+    why = "executing agent expression not recognised"
+    for o in U.origins(p, agent):
+        comp = None
+        if isinstance(o, ast.Subscript) and isinstance(o.slice, ast.Constant) and o.slice.value == 0:
+            inner = U.origins(p, o.value)
+            if len(inner) == 1:
+                comp = inner[0]
+        elif isinstance(o, ast.Call) and isinstance(o.func, ast.Name) and o.func.id == "next" and o.args:
+            inner = U.origins(p, o.args[0])
+            if len(inner) == 1:
+                comp = inner[0]
+                if isinstance(comp, ast.Call) and isinstance(comp.func, ast.Name) and comp.func.id == "iter" and len(comp.args) == 1:
+                    inner = U.origins(p, comp.args[0])
+                    comp = inner[0] if len(inner) == 1 else None
+        if isinstance(comp, (ast.ListComp, ast.GeneratorExp)) and len(comp.generators) == 1:
+            gen = comp.generators[0]
+            over_params, over_agents = _over_parameters(x, gen.iter)
+            cond = gen.ifs[0] if len(gen.ifs) == 1 else None
+            member = isinstance(cond, ast.Compare) and len(cond.ops) == 1 and isinstance(cond.ops[0], ast.In) and isinstance(cond.left, ast.Name) \
+                and isinstance(gen.target, ast.Name) and cond.left.id == gen.target.id and _agents_only(x, cond.comparators[0])
+            elt_is_var = isinstance(comp.elt, ast.Name) and isinstance(gen.target, ast.Name) and comp.elt.id == gen.target.id
+            if over_params and not over_agents and member and elt_is_var:
+                continue
+            if not over_params or over_agents:
+                return False, "the search runs over the agent list (first agent in agent_names that occurs in the action), not over the action's parameters"
+            if not member:
+                return False, "the filter is not membership in agent_names"
+            return False, why
+        if isinstance(o, ast.For):
+            # for prm in parameters: if prm in agent_names: <use prm>; break
+            over_params, over_agents = _over_parameters(x, o.iter)
+            if not over_params or over_agents:
+                return False, "the search runs over the agent list (first agent in agent_names that occurs in the action), not over the action's parameters"
+            tests = [s for s in C.stmts_in(o.body) if isinstance(s, ast.If)]
+            good = False
+            for t in tests:
+                c = t.test
+                if isinstance(c, ast.Compare) and len(c.ops) == 1 and isinstance(c.ops[0], ast.In) and isinstance(c.left, ast.Name) \
+                        and isinstance(o.target, ast.Name) and c.left.id == o.target.id and _agents_only(x, c.comparators[0]) \
+                        and t.body and isinstance(t.body[-1], ast.Break):
+                    good = True
+            others = [s for s in C.stmts_in(o.body) if isinstance(s, (ast.Break, ast.Continue))]
+            if good and len(others) == 1:
+                continue
+            return False, "the loop does not stop at the first parameter that is an agent name"
+        return False, why
+    return True, ""
 
 
 def rule_agent(repo: Repo) -> RuleResult:
     r = RuleResult("C15.agent", "the executing agent of an action is the first of ITS parameters that is an agent name",
                    "each agent's actions stay in that agent's slot")
-    f = repo.func(f"{PC}._extract_plan_actions")
-    p = L.prov(repo, f)
-    r.site(f.qn)
-    apps = [c for c in L.calls_in(f.node) if isinstance(c.func, ast.Attribute) and c.func.attr == "append"]
-    ok = False
-    why = "executing agent expression not recognised"
-    if apps and isinstance(apps[0].args[0], ast.Tuple) and len(apps[0].args[0].elts) == 2:
-        agent = apps[0].args[0].elts[1]
-        src = agent
-        if isinstance(agent, ast.Name):
-            for n in ast.walk(f.node):
-                if isinstance(n, ast.Assign) and any(isinstance(t, ast.Name) and t.id == agent.id for t in n.targets):
-                    src = n.value
-        comp = None
-        first = False
-        if isinstance(src, ast.Subscript) and isinstance(src.slice, ast.Constant) and src.slice.value == 0 and isinstance(src.value, (ast.ListComp, ast.GeneratorExp)):
-            comp, first = src.value, True
-        if isinstance(src, ast.Call) and callee_name(src) == "next" and src.args and isinstance(src.args[0], (ast.GeneratorExp, ast.ListComp)):
-            comp, first = src.args[0], True
-        if comp is not None and first:
-            gen = comp.generators[0]
-            it = p.trace(gen.iter)
-            over_params = any("call:split" in x and any(s.startswith("slice:1") for s in x) for x in it) and not any(x == ("param:agent_names",) for x in it)
-            cond = gen.ifs[0] if len(gen.ifs) == 1 else None
-            member = isinstance(cond, ast.Compare) and isinstance(cond.ops[0], ast.In) and all(x == ("param:agent_names",) for x in p.trace(cond.comparators[0]))
-            elt_is_var = isinstance(comp.elt, ast.Name) and isinstance(gen.target, ast.Name) and comp.elt.id == gen.target.id
-            ok = over_params and member and elt_is_var
-            if not over_params:
-                why = "the search runs over the agent list (first agent in agent_names that occurs in the action), not over the action's parameters"
-            elif not member:
-                why = "the filter is not membership in agent_names"
-    if ok:
-        r.ok({"executing_agent": "[p for p in action_parameters if p in agent_names][0]"})
-    else:
-        r.fail(Finding("C15.agent", f, "executing-agent", f"executing agent: {why}"))
+    x = _ctx(repo)
+    r.site(x.c.qn + " [executing agent]")
+    for t, site, _comp in _plan_entries(x):
+        ok, why = _first_match(x, t.elts[1])
+        if ok:
+            r.ok({"executing_agent": "first parameter of the action that is in agent_names"})
+        else:
+            r.fail(Finding("C15.agent", x.c, "executing-agent", f"executing agent: {why}", node=t))
     r.require_sites(1)
     return r
 
@@ -294,24 +564,49 @@ def rule_agent(repo: Repo) -> RuleResult:
 def rule_extract(repo: Repo) -> RuleResult:
     r = RuleResult("C15.extract", "plan actions are read in match order, lower-cased; name = first token, parameters = the rest, agent = a parameter that is an agent name",
                    "keeps every action and each agent's relative order")
-    f = repo.func(f"{PC}._extract_plan_actions")
-    p = L.prov(repo, f)
-    r.site(f.qn)
-    apps = [c for c in L.calls_in(f.node) if isinstance(c.func, ast.Attribute) and c.func.attr == "append"]
-    ok = False
-    if len(apps) == 1 and isinstance(apps[0].args[0], ast.Tuple):
-        call, agent = apps[0].args[0].elts
-        tr = p.trace(call)
-        ok = isinstance(call, ast.Call) and callee_name(call) == "ActionCall" and \
-            any("call:lower" in x and "call:split" in x and x[-1].startswith("arg0:ActionCall") and "item:0" in x for x in tr) and \
-            any("slice:1:" in x and x[-1].startswith("arg1:ActionCall") for x in tr) and \
-            not any(any(s.startswith(("arg0:sorted", "arg0:reversed", "arg0:set")) for s in x) for x in tr)
-        loops = [n for n in ast.walk(f.node) if isinstance(n, ast.For)]
-        ok = ok and bool(loops) and not any(isinstance(s, (ast.Continue, ast.Break)) for s in C.stmts_in(loops[0].body))
+    x = _ctx(repo)
+    p, g = x.pe, x.ge
+    r.site(x.c.qn + " [action extraction]")
+    text = f"param:{x.E.param('TEXT')}"
+    entries = _plan_entries(x)
+    ok = len(entries) == 1
+    for t, site, comp in entries:
+        calls = U.origins(p, t.elts[0])
+        call = calls[0] if len(calls) == 1 else None
+        if not (isinstance(call, ast.Call) and callee_name(call) == "ActionCall" and isinstance(call.func, ast.Name)):
+            ok = False
+            continue
+        init = repo.find_method("ActionCall", "__init__")
+        nm, pr = L.arg_of(call, init, "name", 0), L.arg_of(call, init, "grounded_parameters", 1)
+        tn = U.short(p.trace(nm)) if nm is not None else set()
+        tp = U.short(p.trace(pr)) if pr is not None else set()
+        starred = pr is not None and _starred_rest(x, pr) is not None
+        ok = ok and any(q[0] == text and "call:lower" in q and "call:split" in q and (q[-1] == "item:0" or (starred and q[-1] == "unpack:0")) for q in tn)
+        ok = ok and pr is not None and _is_parameter_list(x, pr) and any(q[0] == text and "call:lower" in q and "call:split" in q for q in tp)
+        reorder = ("arg0:sorted", "arg0:reversed", "arg0:set", "arg0:frozenset", "call:reverse", "call:sort")
+        ok = ok and not any(any(s.startswith(reorder) for s in q) for q in tn | tp)
+        if comp is not None:
+            ok = ok and not any(gen.ifs for gen in comp.generators)
+            its = [gen.iter for gen in comp.generators]
+        else:
+            n = g.node_containing(site)
+            loops = _enclosing_loops(g, n)
+            if not loops:
+                ok = False
+                continue
+            head = loops[-1]
+            at_least, at_most = U.per_iteration(g, head, {n})
+            ok = ok and at_least and at_most and len(loops) == 1
+            st = g.stmt[head]
+            its = [st.iter] if isinstance(st, ast.For) else []
+            ok = ok and bool(its)
+        for it in its:
+            ti = U.short(p.trace(it))
+            ok = ok and any(q[0] == text for q in ti) and not any(any(s.startswith(reorder) for s in q) for q in ti)
     if ok:
         r.ok({"actions": "ActionCall(tokens[0], tokens[1:]) per match, in order"})
     else:
-        r.fail(Finding("C15.extract", f, "extraction", "plan actions are not extracted one per match, in order, as (name, parameters)"))
+        r.fail(Finding("C15.extract", x.c, "extraction", "plan actions are not extracted one per match, in order, as (name, parameters)"))
     r.require_sites(1)
     return r
 
